@@ -513,6 +513,7 @@ type FuncContract struct {
 	AssumeAfter  []Clause     // unchecked assumptions after calls to a callee (Case = callee key), over result/result1
 	AssumeBefore []Clause     // unchecked assumptions before calls to a callee (Case = callee key)
 	Writes       []Clause     // per-store assertions (Case = variable name)
+	Returns      []Clause     // per-return assertions (Case = ordinal of the return statement in source order)
 	Havoc        bool         // callee may change every heap location; only its ensures (none, or proved separately) are assumed
 	Preserves    []string     // struct types whose fields a havoc callee never assigns (checked syntactically over the package)
 	Inline       bool         // trivial leaf function: executed at call sites instead of summarised
@@ -732,6 +733,15 @@ func ParseContractFile(src, path string) (cf *ContractFile, err error) {
 				c := mk(strings.TrimSpace(rest[idx+1:]), l.line)
 				c.Case = strings.TrimSpace(rest[:idx])
 				cur.Writes = append(cur.Writes, c)
+			case "return":
+				// return K: expr  -- checked in the state of the K-th return statement (source order), locals in scope
+				idx := strings.Index(rest, ":")
+				if idx < 0 {
+					panic(fmt.Errorf("%s:%d: return syntax: return K: expr", path, l.line))
+				}
+				c := mk(strings.TrimSpace(rest[idx+1:]), l.line)
+				c.Case = strings.TrimSpace(rest[:idx])
+				cur.Returns = append(cur.Returns, c)
 			case "preserves":
 				for _, n := range strings.Split(rest, ",") {
 					cur.Preserves = append(cur.Preserves, strings.TrimSpace(n))
